@@ -7,7 +7,7 @@ type combination vs the Float instance of the generated rule.  Oracle on the imp
 reciprocity, range, side / direction, distribution of the reaction, coupling range per pair; after a whole run() on force-free
 tissues the exact sum of all node forces, and zero force on every node that has nothing within the cut-offs.
 """
-import os, sys, time, json, math
+import os, sys, time, json, math, re
 from fractions import Fraction as Fr
 import vlib
 from vlib import Rng, fhex, unhex
@@ -279,6 +279,28 @@ def tissue_oracle(t, cm, ans):
     return None, st
 
 
+def enclosing_observation(cm, exe):
+    """not a verdict, a measurement kept in the evidence: an epithelial icosahedron poking through an enclosing ECM
+    icosphere (radius 3, centre of the inner cell at 2.6, both cut-offs 0.5).  Do the nodes that escaped get a force?
+    (models 1 and 2 test the node normal against the face normal before the rule is reached)"""
+    out = {}
+    for prep in ((0,) if cm == 0 else (0, 1)):
+        po, fo = cc.place("ico1", [0.0, 0.0, 0.0], [3.0, 3.0, 3.0])
+        pi, fi = cc.place("ico0", [2.6, 0.0, 0.0], [1.0, 1.0, 1.0])
+        ft = [(1.0, 1.0)] * 3
+        t = cc.Tissue([cc.Cell(1, 0, po, fo, ft), cc.Cell(0, 1, pi, fi, ft)], 0.5, 0.5, 0.5, 1, prep)
+        ans, rc, err = vlib.run_lines(exe, [t.line("tissue")])
+        s = cc.parse_tissue(ans[0]) if ans else None
+        if s is None:
+            out["prep%d" % prep] = "no answer"
+            continue
+        F = cc.vecs(s["F"])
+        esc = [k for k, p in enumerate(pi) if math.sqrt(sum(x * x for x in p)) > 3.0]
+        pushed = [k for k in esc if sum(F[len(po) + k][j] * pi[k][j] for j in range(3)) < 0]
+        out["node_normals_%s" % ("computed" if prep else "zero_as_in_iteration_0")] = {"escaped_nodes": len(esc), "pushed_back": len(pushed)}
+    return out
+
+
 # ---------------------------------------------------------------- run
 def run(ctx):
     tier, seed = ctx["tier"], ctx["seed"]
@@ -296,13 +318,14 @@ def run(ctx):
     if not os.path.exists(drv):
         V.fail_tie("correspondence", "model driver missing (lake build failed)")
     widen = 3 if not proof["ok"] else 1
-    reps = (2 if tier == "quick" else 14) * widen
-    ntis = (14 if tier == "quick" else 90) * widen
+    reps = (2 if tier == "quick" else 36) * widen
+    ntis = (14 if tier == "quick" else 220) * widen
     stats = {"pair_tissues": 0, "pairs": 0, "pairs_with_force": 0, "pairs_coupled": 0, 
              "model_bit_identical": 0, "model_close": 0, "model_disagreements": 0, "oracle_failures": 0, "crashes": 0,
              "run_tissues": 0, "run_nonzero_nodes": 0}
     combos, per_model, samples, rebuilt_total, lines_seen = {}, {}, [], 0, set()
     tags = {}
+    observations = {}
     for cm in (0, 1, 2):
         exe, rebuilt = cc.build(cm)
         rebuilt_total += rebuilt
@@ -340,6 +363,7 @@ def run(ctx):
             else:
                 model = mo
         nfail = ndis = 0
+        seen_msgs = set()
         for j, (i, rec) in enumerate(recs_all):
             t = ts[i]
             stats["pairs"] += 1
@@ -353,7 +377,9 @@ def run(ctx):
             if msg:
                 nfail += 1
                 stats["oracle_failures"] += 1
-                if nfail <= 3:
+                mk = re.sub(r"[-+]?[0-9][-+0-9.e]*", "#", msg)[:80]
+                if mk not in seen_msgs and len(seen_msgs) < 3:      # one replay per kind of failure
+                    seen_msgs.add(mk)
                     V.fail_input("contact model %d: %s" % (cm, msg), {"contact_model": cm, "mode": "pairs", "tissue": t.describe(), "line": lines[i],
                                  "pair": {"node_cell": rec.i1, "node": rec.ni, "face_cell": rec.i2, "face": rec.fi, "types": [rec.t1, rec.t2],
                                           "p": rec.p, "a": rec.a, "b": rec.b, "c": rec.c, "face_normal": rec.fn, "forces_node_f1_f2_f3": rec.F}}, key=None)
@@ -402,6 +428,7 @@ def run(ctx):
                 stats["oracle_failures"] += 1
                 if nrf <= 2:
                     V.fail_input("contact model %d: %s" % (cm, msg), {"contact_model": cm, "mode": "tissue", "tissue": t.describe(), "line": rlines[i]}, key=None)
+        observations["contact_model_%d" % cm] = enclosing_observation(cm, exe)
         per_model[str(cm)] = {"pair_tissues": len(ts), "pairs": len(recs_all), "pair_failures": nfail, "model_disagreements": ndis,
                               "run_tissues": len(rts), "run_failures": nrf}
     rcode, nviol = V.finish()
@@ -417,7 +444,8 @@ def run(ctx):
         "rule": "per contact model: %d x 25 type combinations of two cells (tetrahedra/octahedra/icosahedra/cubes; side by side at generated overlaps, or nested for the reversed combinations), "
                 "scales 1e-6..10, offsets up to 300 sizes, cut-offs 0.05..3 l_min, strengths 1e-2..1e2, coupling pre-states (models 1/2), up to 160 (node, face) pairs each; "
                 "plus whole-run tissues of the C06 generator; distinct = distinct request lines" % reps,
-        "type_combinations": combos, "oracle_clauses_exercised": tags, "per_model": per_model, "totals": stats, "repo_objects_rebuilt": rebuilt_total, "samples": samples,
+        "type_combinations": combos, "oracle_clauses_exercised": tags,
+        "observation_escaped_node_vs_enclosing_ecm": observations, "per_model": per_model, "totals": stats, "repo_objects_rebuilt": rebuilt_total, "samples": samples,
     }
     vlib.write_evidence(PID, tier, "proof", cov, [
         "exact arithmetic in the theorems; tolerances of the run-time oracle: 1e-12 of the sum of magnitudes (reciprocity), 1e-9 relative on cut-offs, 1e-7 / 1e-6 relative on the expected forbidden-side force",
